@@ -45,6 +45,14 @@ static void cstl_vector_set_capacity(
     assert(sz >= v->count);
 
     /*
+     * the size in bytes of sz elements plus the scratch element
+     * must be representable; if not, the request can't be satisfied
+     */
+    if (v->elem.size != 0 && sz >= SIZE_MAX / v->elem.size) {
+        return;
+    }
+
+    /*
      * the vector always (quietly) stores space for one extra
      * element at the end to use as scratch space for exchanging
      * elements during sort and reverse operations
